@@ -11,6 +11,7 @@ import XzVerif.Model.Ring
 import XzVerif.Model.Writer1
 import XzVerif.Model.XzWriter
 import XzVerif.Model.Select
+import XzVerif.Model.HashTable
 /-
   driver — line protocol around the executable definitions of Spec and Model.
   One request per line on stdin, one reply line on stdout.  Core-only, so it links.
@@ -374,6 +375,22 @@ def handle (line : String) : String :=
   | "xwrun" :: bs :: lens => match bs.toNat?, lens.mapM String.toNat? with
     | some bs, some lens => " ".intercalate ((XW.run bs lens).blocks.map toString)
     | _, _ => "bad-op"
+  -- w2auto <propsByte> <dictCap> <bufSize> <call>... → as w2run, the match finder being the Lean HashTable4 model
+  | "w2auto" :: pb :: dc :: bs :: calls =>
+    match pb.toNat?.bind Lzma2.propsOfByte, dc.toNat?, bs.toNat?, calls.mapM parseCall with
+    | some p, some dc, some bs, some calls =>
+      let cfg : W2.Cfg := { props := p, dictCap := dc, bufSize := bs }
+      let (w, rs) := W2.run cfg HT.HT4 (W2.init cfg (HT.St.new dc bs)) calls
+      " ".intercalate (rs.map (fun (r, sz) => s!"{r.n}:{errName r.err}@{sz}")) ++ " | " ++ hex w.out ++ " | " ++
+        ",".intercalate (w.chunks.toList.map (fun c => s!"{nameOfKind c.kind}:{c.raw.size}:{c.ops.size}"))
+    | _, _, _, _ => "bad-op"
+  -- htcands <dictCap> <hex(history)> <hex(look)> → candidate distances of the Lean hash table model
+  | ["htcands", dc, h, l] => match dc.toNat? with
+    | some dc =>
+      let hist := unhex h
+      let t := (HT.Tab.new dc).write hist 0 hist.size
+      ",".intercalate ((t.cands (unhex l)).map toString)
+    | none => "bad-op"
   | ["lzmaops", h] =>
     let r := Lzma1.read 0 (unhex h)
     " ".intercalate (r.ops.toList.map opStr)
